@@ -12,7 +12,7 @@ var profiles = map[string]*Profile{
 	"C03": {Name: "loops", MaxDepth: 3, MaxItems: 4, Includes: true, BreakN: true,
 		W: map[string]int{"text": 3, "marker": 2, "print": 4, "cloop": 5, "rloop": 5, "if": 1, "pastprint": 2, "include": 1, "break": 1, "lazybreak": 1, "continue": 1}},
 	"C11": {Name: "letters-and-chains", MaxDepth: 1, MaxItems: 5, Letters: true, Mods: true, PfxSfx: true, LongVals: 8,
-		W: map[string]int{"text": 1, "print": 9, "ctx": 2, "dynprint": 2, "qempty": 1}},
+		W: map[string]int{"text": 1, "print": 9, "ctx": 2, "dynprint": 2, "qempty": 1, "lettersrun": 2}},
 	"C14": {Name: "loop-control", MaxDepth: 4, MaxItems: 3, BreakN: true, Includes: true,
 		W: map[string]int{"marker": 3, "print": 1, "cloop": 5, "rloop": 4, "if": 2, "break": 3, "lazybreak": 3, "continue": 2, "ifok": 2, "include": 2}},
 	"C15": {Name: "variables", MaxDepth: 2, MaxItems: 8, Mods: true, OKFlags: true, LongVals: 8, Includes: true,
@@ -56,7 +56,7 @@ func mergeResults(a, b *Result) *Result {
 }
 
 func init() {
-	for _, p := range []string{"C14", "ALL", "REGION", "C02", "C11", "C15"} {
+	for _, p := range []string{"C14", "ALL", "REGION", "C11", "C15"} {
 		p := p
 		runners[p] = func(o *Options) *Result {
 			return runInterp(o, p, profiles[p], 300, 6000, corrInterp)
@@ -76,6 +76,21 @@ func init() {
 		}
 		res.Rule += " || source clean-up: generated sources built from comment brackets, '#', braces, line breaks, tabs, blanks, \\r \\f \\v and tags, under both keep-format settings; the parser's cutComments/cutFmt (VerifPreprocess hook) against Model/Preproc.v byte for byte"
 		res.WriteReplays(o.Verif+"/evidence/replays", "C01")
+		return res
+	}
+	runners["C02"] = func(o *Options) *Result {
+		res := runInterp(o, "C02", profiles["C02"], 300, 6000, corrInterp)
+		if res.InfraError != "" || o.Replay != "" {
+			return res
+		}
+		n := 300
+		if o.Tier == "thorough" {
+			n = 8000
+		}
+		runSwitchForms(res, NewRNG(o.Seed+202), n)
+		runHelperIndependence(res)
+		res.Rule += " || forms of the switch: the default branch first, in the middle or last among 2-5 cases, several equal cases, number and text arguments, on a new and a reset context, against the branch computed from the template"
+		res.WriteReplays(o.Verif+"/evidence/replays", "C02")
 		return res
 	}
 	runners["C16"] = func(o *Options) *Result {
